@@ -129,6 +129,9 @@ def main(run, args):
             after = afters[0][1]["tree"]
             if after and after[-1] == "_":
                 failing.append({"what": "exported tree ends in a blank node", "script": sc["name"], "op": c["op"]})
+            for w in placement_oracle(c["before"], info["detail"], after):
+                if w != "the tree ends in a blank node":
+                    failing.append({"what": w, "script": sc["name"], "op": c["op"], "before": c["before"], "effect": info["detail"], "after": after})
             leaves = after[0::2]
             if "_" in leaves[:-1]:
                 shapes["interior_blank"] += 1
